@@ -409,7 +409,7 @@ func runC01(c *Ctx) {
 			c.check(goodStep && saw, "R1", site+" (iii) cursor advances by the count returned", pos(in), "cursor += n returned by "+nm, "cursor advances by "+fmt.Sprint(steps)+", not by the count "+nm+" returned")
 			b, lo, ok := chunkStart(buf, 0)
 			c.check(ok && b == "param:b" && lo.equal(atomTerm(pkey, phi)), "R1", site+" (ii) buffer starts at the cursor", pos(in), "chunk = b[cursor:…]", "the chunk handed over is "+b+"["+lo.String()+":], not b[cursor:]")
-			c.check(clampedBy(buf, "maxPacket") || clampedBy(buf, "chunkSize"), "R1", site+" (iv) chunk bounded by maxPacket", pos(in), "chunk resliced to maxPacket when longer", "the chunk handed to "+nm+" is not bounded by maxPacket")
+			c.check(clampedBy(buf, "maxPacket") || clampedBy(buf, "chunkSize") || provablyBoundedByField(p, fn, in, buf, "maxPacket"), "R1", site+" (iv) chunk bounded by maxPacket", pos(in), "chunk resliced to maxPacket when longer", "the chunk handed to "+nm+" is not bounded by maxPacket")
 		})
 	}
 	c.check(n >= 12, "R1", "transfer sites", "?", fmt.Sprintf("%d request literals and chunk-helper calls examined", n), fmt.Sprintf("only %d transfer sites found (12 expected)", n))
@@ -1326,4 +1326,25 @@ func checkAppendStartsAtEnd(c *Ctx, rule string) {
 	})
 	c.check(asks && stored, rule, key, p.Pos(appendEdge.Instrs[0].Pos()), "fstat on the new handle, File.offset = its size",
 		fmt.Sprintf("with the append flag set (*Client).open returns a File without starting it at the file's size (size asked on every path: %v, stored into File.offset: %v): Write then overwrites the head of the file", asks, stored))
+}
+
+// provablyBoundedByField: at instruction `at` of fn the length of the byte slice buf is at most the value of a load of
+// the named field made in fn (the client's maxPacket), proved by the linear prover from the guards on the way — so
+// that `hi := total; if hi-lo > max { hi = lo+max }; b[lo:hi]` is seen to be as bounded as `rb = rb[:max]`.
+func provablyBoundedByField(p *Program, fn *ssa.Function, at ssa.Instruction, buf ssa.Value, field string) bool {
+	z := newZWorld(p).get(fn)
+	var bounds []ssa.Value
+	eachInstr(fn, func(in ssa.Instruction) {
+		if u, ok := in.(*ssa.UnOp); ok && u.Op == token.MUL {
+			if _, n, _, ok := fieldOf(u.X); ok && n == field {
+				bounds = append(bounds, u)
+			}
+		}
+	})
+	for _, m := range bounds {
+		if ok, _ := z.prove(at, []lin{leq(z.lenOf(buf, 0), z.term(m), 0)}); ok {
+			return true
+		}
+	}
+	return false
 }
